@@ -37,10 +37,12 @@ def gen_join_scenario(rng, variant, tier, style=None, stop=False):
     v1 = variant == 2
     J = rng.choice([1, 2, 3, 4, 5, 7, 9])
     nocopy = rng.random() < 0.45
-    style = style or rng.choice(["untimed", "timed", "timed", "timed", "trickle", "slowcons", "tiny", "blockedwrite"])
+    style = style or rng.choice(["untimed", "timed", "timed", "timed", "trickle", "slowcons", "tiny", "blockedwrite", "long"])
     unit = 10_000_000 if v1 else 1
     if style == "untimed":
         T, inacc = rng.choice([0, 0, -5]), rng.choice([0, 25, 100])
+    elif style == "long":
+        T, inacc = rng.choice([600, 1200]) * unit, rng.choice([25, 50, 100])
     elif style == "tiny" and not v1:
         T, inacc = rng.choice([4, 7, 40]), rng.choice([25, 50, 100, 0])
     else:
@@ -57,10 +59,16 @@ def gen_join_scenario(rng, variant, tier, style=None, stop=False):
         style = "ctor-error"
     icap = rng.choice([0, 0, 1, 2, J, 2 * J])
     n = rng.choice([0, 1, 2, 3, 5, 8, 13, 21])
+    if style == "long":
+        # many slices, most of them full, with the occasional timeout slice in between
+        J = rng.choice([2, 3, 4])
+        n = rng.choice([40, 70, 120]) if tier == "quick" else rng.choice([70, 150, 300])
     Tm = max(T, 40 * unit)
     gaps = [0, 0, 0, 2 * unit, 20 * unit, Tm // 2, Tm, Tm + (ivl or 0), 3 * Tm]
     if style == "trickle":
         gaps = [Tm // (J + 1) // 2 * 2, Tm // 4, Tm // 2, Tm // 3 // 2 * 2]
+    if style == "long":
+        gaps = [0] * 12 + [2 * unit, Tm + (ivl or 0), 2 * Tm]
     prod = []
     for i in range(n):
         d = (rng.choice([1, 3, 21]) * (unit if not v1 else 1) + (rng.choice(gaps) if rng.random() < 0.3 else 0)) if i == 0 else rng.choice(gaps)
@@ -219,11 +227,13 @@ class LimitTrace:
 
 def gen_limit_scenario(rng, tier, style=None):
     Q = rng.choice([1, 1, 2, 3, 7, 100])
+    if rng.random() < 0.08:
+        Q = rng.choice([2 ** 63 - 1, 2 ** 63, 2 ** 64 - 1, 2 ** 32 + 1])     # the full uint64 range of Rate.Quantity
     I = rng.choice([1000, 10 ** 6, 10 ** 9])
-    icap = rng.choice([0, 0, 1, 3, Q, 2 * Q])
+    icap = rng.choice([0, 0, 1, 3, min(Q, 8), min(2 * Q, 16)])
     style = style or rng.choice(["upfront", "upfront", "trickle", "stall-burst", "random", "slowcons"])
     k = rng.randrange(0, 5)
-    N = rng.choice([0, max(Q - 1, 0), Q, k * Q, k * Q + 1, max(k * Q - 1, 0), rng.randrange(0, 40)])
+    N = rng.choice([0, max(Q - 1, 0), Q, k * Q, k * Q + 1, max(k * Q - 1, 0), rng.randrange(0, 40)]) if Q <= 100 else rng.randrange(0, 40)
     N = min(N, 60 if tier == "quick" else 400)
     if style == "upfront":
         delays = [0] * N
